@@ -686,6 +686,10 @@ def run(prog, rep, tier):
     rep.rule('SLICE-neg-zero', 'a negative slice bound -E needs E != 0 at that point')
     if check_neg_zero_slices(prog, rep) < 3:
         raise AnalysisError('SLICE-neg-zero: the slices of _tensordot_transpose_axes / _tensordot_worker not found')
+    rep.rule('SPLICE-descending', 'one-for-many list splices at the loop variable run over '
+             'descending positions')
+    if check_splice_order(prog, rep) < 3:
+        raise AnalysisError('SPLICE-descending: the splices of split_legs were not found')
     rep.rule('BLOCKS-permute-compare', 'a tensor permuted with Array.permute (bunched leg) is '
              'rewritten in the blocks of its partner before a block-by-block leg comparison')
     if check_permute_compare(prog, rep) < 1:
@@ -873,4 +877,50 @@ def check_permute_compare(prog, rep):
                               'charge are rejected ("incompatible LegCharge") although the '
                               'charges agree index by index' % (key_text(st)[:60], first),
                               st.lineno)
+    return n
+
+
+# ------------------------------------------------------------------ SPLICE-descending
+def check_splice_order(prog, rep):
+    """SPLICE-descending: `X[v : v + 1] = seq` replaces ONE entry by len(seq) entries and shifts
+    everything behind it. Inside `for v in it:` with the loop variable itself as position, the
+    positions still to come are only valid if they lie IN FRONT of the ones already replaced: the
+    iterable is `reversed(..)` / `sorted(.., reverse=True)`. (A separately advanced running
+    position, as in _split_legs_worker, is a different and correct idiom.)"""
+    n = 0
+    for rel in (NPC, 'tenpy/linalg/charges.py'):
+        m = prog.module(rel)
+        for q, f in m.functions.items():
+            for lp in ast.walk(f):
+                if not (isinstance(lp, ast.For) and isinstance(lp.target, ast.Name)):
+                    continue
+                v = lp.target.id
+                for st in ast.walk(lp):
+                    if not isinstance(st, ast.Assign):
+                        continue
+                    for t in st.targets:
+                        if isinstance(t, ast.Subscript) and isinstance(t.slice, ast.Slice) and \
+                                t.slice.lower is not None and t.slice.upper is not None and \
+                                unparse(t.slice.lower) == v and \
+                                unparse(t.slice.upper).replace(' ', '') == v + '+1' and \
+                                not (isinstance(st.value, (ast.List, ast.Tuple)) and
+                                     len(st.value.elts) == 1):
+                            n += 1
+                            it = lp.iter
+                            desc = isinstance(it, ast.Call) and (
+                                call_name(it) == 'reversed' or (call_name(it) == 'sorted' and any(
+                                    k.arg == 'reverse' and isinstance(k.value, ast.Constant) and
+                                    k.value.value is True for k in it.keywords)))
+                            rep.instance('SPLICE-descending', {'function': q, 'splice': unparse(t),
+                                                               'iterable': unparse(it)[:50],
+                                                               'descending': desc})
+                            if not desc:
+                                rep.violation('SPLICE-descending', m, q, 'ascending-splice:' +
+                                              unparse(t.value),
+                                              '`%s` replaces one entry by several inside `for %s '
+                                              'in %s`: with ascending positions every later '
+                                              'position is shifted by the entries already '
+                                              'inserted (wrong legs / labels when more than one '
+                                              'pipe is split)' % (key_text(st)[:60], v,
+                                                                  unparse(it)[:40]), st.lineno)
     return n
